@@ -9,6 +9,7 @@ Import ListNotations.
 (* ---------------- refinement ---------------- *)
 Section WithTrig.
 Variable trig : trig_t.
+Variable W : world.
 
 Definition refines {A} (a b:res A) : Prop := forall r, a = Ok r -> b = Ok r.
 
@@ -61,7 +62,7 @@ Ltac ref_step :=
   end.
 
 Lemma evalc_refines n n' g E s fvs ep c :
-  nested_refines n n' -> refines (evalc trig n g E s fvs ep c) (evalc trig n' g E s fvs ep c).
+  nested_refines n n' -> refines (evalc trig W n g E s fvs ep c) (evalc trig W n' g E s fvs ep c).
 Proof.
   intros Hn. destruct c; cbn [evalc]; repeat ref_step.
 Qed.
@@ -113,7 +114,7 @@ Qed.
 Theorem vshape_mono o o' g E : e_abort o = e_abort o' -> e_allowed o = e_allowed o' ->
   e_max_depth o <= e_max_depth o' ->
   forall fuel fuel' top ep s foci, fuel <= fuel' ->
-  refines (vshape trig fuel o g E top ep s foci) (vshape trig fuel' o' g E top ep s foci).
+  refines (vshape trig W fuel o g E top ep s foci) (vshape trig W fuel' o' g E top ep s foci).
 Proof.
   intros Ha Hw Hd. induction fuel as [|fuel IH]; intros fuel' top ep s foci Hf.
   - cbn [vshape]. destruct fuel'; cbn [vshape];
